@@ -13,8 +13,10 @@ ANCHORS = ['varDimsElemCorr', 'varDimsQuantAny', 'varDimsStrRefused']
 RULE = ("grids (1-3 args x 1-4 values) and case sets (+ optional sub-grid), 1-3 output variables with scalar / 1-d / 2-d "
         "array outputs whose internal dimensions come from var_coords or from a constant, constants that are / are not "
         "dimensions, resources, attrs, every spelling of var_names / var_dims, functions returning a Dataset with "
-        "var_names=None, through combo_runner_to_ds, case_runner_to_ds, *_to_df, Runner.run_combos / run_cases and "
-        "label(...), with shuffle and thread/adversarial executors; the canonical Dataset (dims, coords, per-variable dims "
+        "var_names=None, through combo_runner_to_ds, case_runner_to_ds, *_to_df, Runner.run_combos / run_cases, "
+        "label(...) and Sampler.sample_combos (draws replaying the case rows), per-run constants that override stored "
+        "ones (also coordinates of an internal dimension) / repeat them / add names, the call log must show the "
+        "constants in force, with shuffle and thread/adversarial executors; the canonical Dataset (dims, coords, per-variable dims "
         "and data, attrs) or DataFrame rows are compared with the Lean model, and ds.sel at EVERY labelled point is "
         "checked by the oracle; plus a stream of explicit var_dims spellings (dict in any order, grouped / overlapping / "
         "unknown keys, list in correspondence, list of pairs incl. repeated keys, mixed lists, bare string, empty forms, "
@@ -24,7 +26,33 @@ RULE = ("grids (1-3 args x 1-4 values) and case sets (+ optional sub-grid), 1-3 
 TRUSTED = ["xarray Dataset construction / concat (modelled, sampled)", "values of constants / attributes / coordinates are opaque to the model (checked by the oracle)"]
 
 ENTRIES_DS = ['combo_runner_to_ds', 'case_runner_to_ds', 'runner', 'label']
-ENTRIES_DF = ['combo_runner_to_df', 'case_runner_to_df', 'runner_df']
+ENTRIES_DF = ['combo_runner_to_df', 'case_runner_to_df', 'runner_df', 'sampler']
+STORED = ('runner', 'runner_df', 'label', 'sampler')       # entry points with constants stored in an object + per-run ones
+ALT = {'t': [5.5, 6.5, 7.5], 'w': [30, 40]}                 # other coordinates for an internal dimension given as a constant
+
+
+def gen_override(rng, desc, force=False):
+    """per-run constants for a Runner-like object: other values for stored constants (also ones that are the coordinates
+    of an internal dimension), the same value again, and names the object does not store"""
+    ov = {}
+    for name, v in desc['constants'].items():
+        r = rng.random()
+        if r < 0.6 or force:
+            ov[name] = list(ALT[name]) if name in ALT else rng.choice([x for x in (3, 'cc', 2.5, 11, 'dd') if x != v])
+        elif r < 0.7:
+            ov[name] = list(v) if isinstance(v, list) else v
+    if rng.random() < 0.3: ov['k1'] = rng.choice([4, 'ee', 1.25])
+    return ov
+
+
+def eff_desc(c):
+    """the description in force for the observed run: per-run constants take precedence over stored ones"""
+    d = c['desc']
+    if not c.get('override'): return d
+    import copy
+    e = copy.deepcopy(d)
+    e['constants'] = {**d['constants'], **copy.deepcopy(c['override'])}
+    return e
 
 
 def nontrivial(c):
@@ -34,11 +62,15 @@ def nontrivial(c):
                                                    or c['sweep']['rows'] is not None or c['strategy'].get('shuffle') or c['strategy']['name'] != 'seq')
 
 
-def _case(rng, to_df=None, auto=None, cases=None, shuffle=None):
+def _case(rng, to_df=None, auto=None, cases=None, shuffle=None, entry=None, override=None):
+    if entry == 'sampler': to_df, cases = True, True
     to_df = rng.random() < 0.3 if to_df is None else to_df
     auto = (not to_df and rng.random() < 0.2) if auto is None else auto
     cases = rng.random() < 0.4 if cases is None else cases
-    if cases:
+    if entry is None and to_df and cases and rng.random() < 0.25: entry = 'sampler'
+    if entry == 'sampler':      # a Sampler draws whole settings: no sub-grid
+        sw = sweeps.gen_sweep(rng, n_case_args=(1, 3), n_cases=(1, 6), n_combo_args=0, max_settings=60)
+    elif cases:
         sw = sweeps.gen_sweep(rng, n_case_args=(1, 3), n_cases=(1, 6), n_combo_args=(0, 1), n_vals=(1, 3), max_settings=60)
     else:
         sw = sweeps.gen_sweep(rng, n_combo_args=(1, 3), n_vals=(1, 4), max_settings=60)
@@ -47,14 +79,21 @@ def _case(rng, to_df=None, auto=None, cases=None, shuffle=None):
     st = sweeps.gen_strategy(rng, heavy_ok=False)
     if shuffle: st = {'name': 'shuffle_int', 'shuffle': shuffle}
     if auto and st['name'] not in ('seq', 'shuffle_int', 'shuffle_true'): st = {'name': 'seq'}
-    if cases:
+    if entry is not None:
+        pass
+    elif cases:
         entry = rng.choice(['case_runner_to_df', 'runner_df', 'combo_runner_to_df'] if to_df else ['case_runner_to_ds', 'runner', 'label', 'combo_runner_to_ds'])
     else:
         entry = rng.choice(['combo_runner_to_df', 'runner_df'] if to_df else ['combo_runner_to_ds', 'runner', 'label'])
-    if entry.startswith('case_runner') and sw['combo_args']:
-        pass
-    return {'sweep': sw, 'desc': desc, 'strategy': st, 'to_df': to_df, 'entry': entry, 'spell': rng.randrange(10 ** 6),
-            'reuse': entry in ('runner', 'runner_df', 'label') and rng.random() < 0.3}
+    c = {'sweep': sw, 'desc': desc, 'strategy': st, 'to_df': to_df, 'entry': entry, 'spell': rng.randrange(10 ** 6),
+         'reuse': entry in STORED and rng.random() < 0.3}
+    if entry in STORED and (override or (override is None and rng.random() < 0.4)):
+        # constants given for this run only: they win over the stored ones, in the call and in what is recorded
+        if not desc['constants'] and (override or rng.random() < 0.7): desc['constants']['k0'] = rng.choice([3, 'cc', 2.5])
+        c['override'] = gen_override(rng, desc, force=bool(override))
+    if c['reuse'] and desc['constants'] and rng.random() < 0.5:
+        c['pre_override'] = gen_override(rng, desc, force=True)     # the earlier run overrode stored constants: must not linger
+    return c
 
 
 # ----------------------------------------------------------------------------- spellings of var_dims (parse_var_dims)
@@ -183,9 +222,25 @@ def _ds_cases(ctx):
             c['strategy'] = {'name': name, **({'shuffle': rng.randint(1, 50)} if rng.random() < 0.5 else {})}
             if c['entry'] in ('runner', 'runner_df', 'label'): c['reuse'] = False
             out.append(c)
+    # per-run constants overriding stored ones: every Runner-like entry point x run_combos / run_cases x Dataset / DataFrame
+    for _ in range(4 if ctx.tier == 'quick' else 30):
+        for entry, to_df in (('runner', False), ('label', False), ('runner_df', True)):
+            for cs in (False, True):
+                out.append(_case(rng, to_df=to_df, auto=False, cases=cs, entry=entry, override=True))
+        out.append(_case(rng, entry='sampler', auto=False, override=True))
+        out.append(_case(rng, to_df=False, auto=True, cases=rng.random() < 0.5, entry='runner', override=True))
     for i in range(800 if ctx.tier == 'quick' else 9000):
         out.append(_case(rng))
     for c in out:
+        ov = c.get('override')
+        if ov is not None:
+            st = c['desc']['constants']
+            ctx.count('per_run_constants', 'other value for a stored constant' if any(k in st and st[k] != v for k, v in ov.items())
+                      else 'same value / new names only' if ov else 'empty dict')
+            ctx.count('per_run_constants_via', f"{c['entry']}/{'run_cases' if c['sweep']['rows'] is not None else 'run_combos'}")
+            if any(k in ALT for k in ov): ctx.count('per_run_constants_dim', 'internal dimension coordinate overridden')
+        else:
+            ctx.count('per_run_constants', 'none given')
         ctx.count('entry', c['entry']); ctx.count('n_out', len(c['desc']['names'])); ctx.count('auto', c['desc']['auto'])
         ctx.count('internal_dims', sum(1 for d in c['desc']['dims'] if d)); ctx.count('cases', c['sweep']['rows'] is not None)
         ctx.count('strategy', c['strategy']['name']); ctx.count('runner_reused', bool(c.get('reuse')))
@@ -195,8 +250,24 @@ def _ds_cases(ctx):
 search_cases = cases
 
 
+def setup(ctx):
+    ctx.logfile = os.path.join(common.scratch_root(), 'calllog.jsonl')
+    os.environ[fns.LOG_ENV] = ctx.logfile
+
+
 def teardown(ctx):
     sweeps.shutdown_executors()
+
+
+class _Replay:
+    """a 'random' choice for one argument of a Sampler that hands out a prepared column (callables are accepted as
+    distributions): the drawn settings are then the case rows of the description"""
+
+    def __init__(self, column):
+        self.it = iter(column)
+
+    def __call__(self):
+        return next(self.it)
 
 
 def run_real(c, ctx):
@@ -218,6 +289,9 @@ def run_real(c, ctx):
     cases_d = sweeps.py_cases(sw, rng.choice(['dict', 'dict_anyorder']))     # each dict may list its keys in its own order
     cases_t = sweeps.py_cases(sw, 'tuple')
     e = c['entry']
+    ov = c.get('override')
+    per_run = {} if ov is None else {'constants': own(ov)}
+    fns.reset_log()
     try:
         if e in ('combo_runner_to_ds', 'combo_runner_to_df'):
             fn = xyz.combo_runner_to_df if c['to_df'] else xyz.combo_runner_to_ds
@@ -236,15 +310,24 @@ def run_real(c, ctx):
                 # the same Runner ran before with a per-run constant: it must not linger
                 if sw['rows'] is not None:
                     pc0 = tuple((a, list(v)) for a, v in (combos.items() if isinstance(combos, dict) else combos)) if combos else ()
-                    r.run_cases(cases_t, fn_args=sw['case_args'], combos=pc0, constants={'zz_once': 1}, verbosity=0, **extra)
+                    r.run_cases(cases_t, fn_args=sw['case_args'], combos=pc0, constants={'zz_once': 1, **own(c.get('pre_override') or {})}, verbosity=0, **extra)
                 else:
-                    r.run_combos(combos, constants={'zz_once': 1}, verbosity=0, **extra)
-            if sw['rows'] is not None:
+                    r.run_combos(combos, constants={'zz_once': 1, **own(c.get('pre_override') or {})}, verbosity=0, **extra)
+                fns.reset_log()
+            if e == 'sampler':
+                # a Sampler on the runner: the draws replay the case rows (first arguments through default_combos)
+                cols = {a: [row[j] for row in cases_t] for j, a in enumerate(sw['case_args'])}
+                h = rng.randint(0, len(sw['case_args']))
+                smp = xyz.Sampler(r, default_combos={a: _Replay(cols[a]) for a in sw['case_args'][:h]})
+                res = smp.sample_combos(len(cases_t), {a: _Replay(cols[a]) for a in sw['case_args'][h:]}, verbosity=0, **per_run, **kw)
+                if smp.last_df is not res: return {'err': 'last_df', 'msg': 'Sampler.last_df is not the returned table'}
+                if labelled.canon_df(smp.full_df) != labelled.canon_df(res): return {'err': 'full_df', 'msg': 'Sampler.full_df differs from the first table added'}
+            elif sw['rows'] is not None:
                 # Runner.run_cases forwards `combos` unparsed (parse=False): give it the parsed form
                 pc = tuple((a, list(v)) for a, v in (combos.items() if isinstance(combos, dict) else combos)) if combos else ()
-                res = r.run_cases(cases_d if rng.random() < 0.5 else cases_t, fn_args=sw['case_args'], combos=pc, verbosity=0, **extra, **kw)
+                res = r.run_cases(cases_d if rng.random() < 0.5 else cases_t, fn_args=sw['case_args'], combos=pc, verbosity=0, **extra, **per_run, **kw)
             else:
-                res = r.run_combos(combos, verbosity=0, **extra, **kw)
+                res = r.run_combos(combos, verbosity=0, **extra, **per_run, **kw)
             if not c['to_df'] and r.last_ds is not res: return {'err': 'last_ds', 'msg': 'Runner.last_ds is not the returned dataset'}
     except Exception as ex:
         return {'err': type(ex).__name__, 'msg': str(ex)[:300]}
@@ -252,18 +335,22 @@ def run_real(c, ctx):
         import xarray as xr
         if isinstance(res, xr.DataArray):       # a function returning one named DataArray gives one: read it as a Dataset
             da = res; res = da.to_dataset(); res.attrs = dict(da.attrs)
+    eff = eff_desc(c)
+    log = fns.read_log()
+    if not log: raise RuntimeError('the call log of the observed run is empty')
+    calls = labelled.oracle_calls(log, sw, eff)
     if c['to_df']:
         return {'df': labelled.canon_df(res), 'perm_seed': seed, 'adv_order': list(adv.order) if adv else None,
-                'oracle': labelled.oracle_df(labelled.canon_df(res), sw, desc, sweeps.n_settings(sw))}
+                'oracle': labelled.oracle_df(labelled.canon_df(res), sw, eff, sweeps.n_settings(sw)) or calls}
     return {'ds': labelled.canon_ds(res), 'perm_seed': seed, 'adv_order': list(adv.order) if adv else None,
-            'oracle': labelled.oracle_ds(res, sw, desc)}
+            'oracle': labelled.oracle_ds(res, sw, eff) or calls}
 
 
 def model_request(c, obs):
     if c.get('kind') == 'vardims':
         return {'op': 'vardims', 'names': c['names'], 'sp': c['sp']}
     sw = c['sweep']
-    rq = {'op': 'tods', 'kind': sweeps.model_kind(labelled.kind_of(c['desc'])), 'desc': labelled.model_desc(c['desc']),
+    rq = {'op': 'tods', 'kind': sweeps.model_kind(labelled.kind_of(c['desc'])), 'desc': labelled.model_desc(eff_desc(c)),
           'to_df': c['to_df']}
     rq.update(sweeps.sweep_request(sw))
     st = {}
@@ -280,9 +367,9 @@ def compare(c, obs, rep):
     if 'err' in obs or 'err' in rep:
         return None if ('err' in obs) == ('err' in rep) else f'error mismatch: real {obs.get("err")} {obs.get("msg")} model {rep.get("err")}'
     if c['to_df']:
-        exp = labelled.expected_df(rep, c['sweep'], c['desc'])
+        exp = labelled.expected_df(rep, c['sweep'], eff_desc(c))
         return None if obs['df'] == exp else f'rows differ: real {json.dumps(obs["df"])[:300]} model {json.dumps(exp)[:300]}'
-    return labelled.diff_ds(obs['ds'], labelled.expected_ds(rep, c['sweep'], c['desc']))
+    return labelled.diff_ds(obs['ds'], labelled.expected_ds(rep, c['sweep'], eff_desc(c)))
 
 
 def oracle(c, obs):
